@@ -359,11 +359,14 @@ def _guard_inputs(world, frames, before, after):
     must have been cached by this very request (not readable before it), otherwise a
     value completed earlier may have been computed from it."""
     readers: dict = {}
+    # a completed ADD / DIVIDE read consumed sub-periods (or an enclosing period) of
+    # the variable: keep clear of that variable altogether
+    summed = {rec[0] for f in frames if f.done for rec in f.reads if rec[2] is not None}
     for f in frames:
         for rec in f.reads:
             var, period, opt, _val, raised = rec[:5]
             spec = world.var_specs.get(var)
-            if spec is None or opt is not None or raised or spec["unit"] in ("eternity", "week", "weekday"):
+            if spec is None or opt is not None or raised or var in summed or spec["unit"] in ("eternity", "week", "weekday"):
                 continue
             if spec.get("set_input") or spec.get("end") or spec["type"] == "enum":
                 continue
